@@ -396,3 +396,53 @@ func classify(e string) string {
 	}
 	return "other"
 }
+
+// ---- C05, downloads in flight (hidden spec C05-inflight of the driver) ----
+//
+// C05's sequential exploration completes every download before the next Write. Here a single reader that is slow to
+// take its response downloads a listed segment, part or init while the writer publishes parts and completes,
+// finalises and removes segments: the bytes received must be those of the listed resource (c08Check: every body is
+// compared with the reference bytes of its URI and must decode).
+func init() {
+	verifProps["C05-inflight"] = vh.Prop{
+		List: func(tier string) []vh.Scenario { return msListScenarios(c05InflightScens(tier)) },
+		Run: func(c *vh.Ctx) {
+			respSlowClient = true
+			runMuxSched(c, c05InflightScens(c.Tier), c08Check)
+		},
+	}
+}
+
+func c05InflightScens(tier string) []msScen {
+	var out []msScen
+	type base struct {
+		cfg   muxCfg
+		warms []int
+	}
+	bases := []base{{cfgLLDisk, []int{6, 9}}, {cfgLL, []int{9}}, {cfgFMP4Disk, []int{13, 17}}, {cfgTSDisk, []int{13, 17}}}
+	if tier == "thorough" {
+		bases = []base{{cfgLLDisk, []int{6, 9, 13, 29}}, {cfgLL, []int{6, 9, 29}}, {cfgLLAV, []int{9}}, {cfgFMP4Disk, []int{9, 13, 17}}, {cfgFMP4, []int{9, 13}}, {cfgTSDisk, []int{5, 13, 17}}}
+	}
+	for _, b := range bases {
+		ll := b.cfg.Variant == "ll"
+		scripts := [][]string{{"PL", "FOLLOWSEG"}, {"PL", "FOLLOWOLD"}}
+		if ll {
+			scripts = append(scripts, []string{"PL", "FOLLOWPART"}, []string{"PART", "SEG"})
+		}
+		if b.cfg.Variant != "mpegts" {
+			scripts = append(scripts, []string{"PL", "FOLLOWINIT"})
+		}
+		for _, warm := range b.warms {
+			for _, writes := range []int{3, 5} {
+				for _, s := range scripts {
+					bound := 2
+					if tier == "thorough" && writes == 3 {
+						bound = 3
+					}
+					out = append(out, msScen{Prop: "C05", Cfg: b.cfg, Warm: warm, Writes: writes, Reqs: [][]string{s}, Bound: bound, Shards: 1})
+				}
+			}
+		}
+	}
+	return out
+}
